@@ -3,9 +3,12 @@ package main
 import (
 	"fmt"
 	"os"
+	"runtime/debug"
 	"strings"
 
 	"verif/checker/internal/load"
+	"verif/checker/internal/report"
+	"verif/checker/internal/rules"
 	"verif/checker/internal/shape"
 )
 
@@ -23,6 +26,8 @@ func main() {
 		cmdDump(os.Args[2:])
 	case "sweep":
 		cmdSweep(os.Args[2:])
+	case "check":
+		os.Exit(cmdCheck(os.Args[2:]))
 	default:
 		usage()
 	}
@@ -95,4 +100,55 @@ func cmdSweep(args []string) {
 			}
 		}
 	}
+}
+
+func cmdCheck(args []string) (code int) {
+	repo, verif, tier := "/repo", "/verif", "quick"
+	if t := os.Getenv("VERIF_TIER"); t == "quick" || t == "thorough" {
+		tier = t
+	}
+	var ids []string
+	for i := 0; i < len(args); i++ {
+		switch args[i] {
+		case "--tier":
+			i++
+			tier = args[i]
+		case "--repo":
+			i++
+			repo = args[i]
+		case "--verif":
+			i++
+			verif = args[i]
+		default:
+			ids = append(ids, args[i])
+		}
+	}
+	if len(ids) != 1 {
+		usage()
+	}
+	id := ids[0]
+	run := report.NewRun(id, tier)
+	defer func() {
+		if r := recover(); r != nil {
+			fmt.Printf("CHECK-BROKEN property=%s: internal panic: %v\n", id, r)
+			debug.PrintStack()
+			code = 2
+		}
+	}()
+	check, ok := rules.Checks[id]
+	if !ok {
+		fmt.Fprintln(os.Stderr, "no check for", id)
+		return 2
+	}
+	p, err := load.Load(repo, check.NeedSSA)
+	if err != nil {
+		run.Break(err.Error())
+		return run.Finish(verif)
+	}
+	run.Count("packages", len(p.Pkgs))
+	run.Count("files", p.Files)
+	run.Count("functions", len(p.Decls))
+	c := rules.NewCtx(p, tier, run)
+	check.Fn(c)
+	return run.Finish(verif)
 }
